@@ -88,10 +88,11 @@ type TermCtx struct {
 	varByNm map[string]*Term
 	log     []string // every definition/assert sent (for portfolio scripts)
 	newVars []*Term
+	varKind map[string]byte // 'd' decimal, 't' instant, 'i' integer (for counterexample search)
 }
 
 func newTermCtx() *TermCtx {
-	return &TermCtx{intern: map[string]*Term{}, varByNm: map[string]*Term{}}
+	return &TermCtx{intern: map[string]*Term{}, varByNm: map[string]*Term{}, varKind: map[string]byte{}}
 }
 
 func (c *TermCtx) Var(name string, sort Sort) *Term {
